@@ -93,12 +93,15 @@ func (f *Frame) instr(b *ssa.BasicBlock, bi *BInfo, idx int, ins ssa.Instruction
 		vsort, hsort := fmt.Sprintf("(Array %s %s)", ks, vs), fmt.Sprintf("(Array %s Bool)", ks)
 		g.setArr(st, va, vsort, sto(g.arr(st, va, vsort), ref, fmt.Sprintf("((as const %s) %s)", vsort, g.zero(mt.Elem()).S)))
 		g.setArr(st, ha, hsort, sto(g.arr(st, ha, hsort), ref, fmt.Sprintf("((as const %s) false)", hsort)))
-		g.setArr(st, "MapCard", "Int", sto(g.arr(st, "MapCard", "Int"), ref, "0"))
+		g.setArr(st, cardArr(mt), "Int", sto(g.arr(st, cardArr(mt), "Int"), ref, "0"))
 		f.setVal(x, mk(ref, "Int", x.Type()))
 	case *ssa.MapUpdate:
 		m, k, v := f.val(x.Map), f.val(x.Key), f.val(x.Value)
 		f.safety("mapnil", bi, sNot(sEq(m.S, "0")), "assignment to entry in nil map")
-		f.frameCheck(bi, "MapV", m.S, "map update "+x.String())
+		{
+			va, _, _, _ := g.mapArrs(m.GT.Underlying().(*types.Map))
+			f.frameCheck(bi, va, m.S, "map update "+x.String())
+		}
 		g.mapStore(st, m, k.S, v.S)
 	case *ssa.Lookup:
 		f.lookup(bi, x)
@@ -355,7 +358,7 @@ func (f *Frame) frameCheck(bi *BInfo, arr, ref, what string) {
 	}
 	alts := []string{sLe(top.entry.next, ref)}
 	for _, m := range top.mods {
-		if m.arr == arr || (arr == "MapV" && strings.HasPrefix(m.arr, "MapV")) {
+		if m.arr == arr {
 			if m.ref == "" {
 				return
 			}
@@ -387,8 +390,8 @@ func (g *Gen) mapStore(st *State, m T, k, v string) {
 	vsort, hsort := fmt.Sprintf("(Array %s %s)", ks, vs), fmt.Sprintf("(Array %s Bool)", ks)
 	av, ah := g.arr(st, va, vsort), g.arr(st, ha, hsort)
 	had := sel(sel(ah, m.S), k)
-	card := g.arr(st, "MapCard", "Int")
-	g.setArr(st, "MapCard", "Int", sto(card, m.S, sAdd(sel(card, m.S), sIte(had, "0", "1"))))
+	card := g.arr(st, cardArr(mt), "Int")
+	g.setArr(st, cardArr(mt), "Int", sto(card, m.S, sAdd(sel(card, m.S), sIte(had, "0", "1"))))
 	g.setArr(st, va, vsort, sto(av, m.S, sto(sel(av, m.S), k, v)))
 	g.setArr(st, ha, hsort, sto(ah, m.S, sto(sel(ah, m.S), k, "true")))
 }
@@ -399,8 +402,8 @@ func (g *Gen) mapDelete(st *State, m T, k string) {
 	vsort, hsort := fmt.Sprintf("(Array %s %s)", ks, vs), fmt.Sprintf("(Array %s Bool)", ks)
 	av, ah := g.arr(st, va, vsort), g.arr(st, ha, hsort)
 	had := sel(sel(ah, m.S), k)
-	card := g.arr(st, "MapCard", "Int")
-	g.setArr(st, "MapCard", "Int", sto(card, m.S, sSub(sel(card, m.S), sIte(had, "1", "0"))))
+	card := g.arr(st, cardArr(mt), "Int")
+	g.setArr(st, cardArr(mt), "Int", sto(card, m.S, sSub(sel(card, m.S), sIte(had, "1", "0"))))
 	g.setArr(st, va, vsort, sto(av, m.S, sto(sel(av, m.S), k, g.zero(mt.Elem()).S)))
 	g.setArr(st, ha, hsort, sto(ah, m.S, sto(sel(ah, m.S), k, "false")))
 }
